@@ -3,7 +3,8 @@
              (0 enc a pre (op ...))     enc: 0 scripted chunks, 1 PatternEncoder "{m}{n}"
              a: 1 append / 0 truncate   pre: (0) no file | (1 bytes)
              op: (0 (chunk ...)) append one record | (1 a) drop the appender and build a new one |
-                 (2 (chunk ...)) append a record whose (scripted) encoder writes the chunks, then fails
+                 (2 (chunk ...)) append a record whose (scripted) encoder writes the chunks, then fails |
+                 (3 a) the log file is renamed away, a new appender is built on the path, the old one dropped
            result: ((ok disk) ...) — first entry after the initial build, then one per op
    kind 1  trace validation of a concurrent run of the real appender:
              (1 a pre yield ((record ...) per thread) observed-file)   record = (chunk ...)
@@ -28,12 +29,14 @@ Definition dec_pre (v : vl) : option (option bytes) :=
 
 Definition dec_chunks (v : vl) : option record := val_list val_S v.
 
-Inductive sop := SAppend (cs : record) | SReopen (a : bool) | SAppendFail (cs : record).
+Inductive sop := SAppend (cs : record) | SReopen (a : bool) | SAppendFail (cs : record)
+                | SRotatedAway (a : bool).   (* the file was renamed away; a new appender is built on the path *)
 
 Definition dec_sop (v : vl) : option sop :=
   match v with
   | VL [VN 0; cs] => match dec_chunks cs with Some l => Some (SAppend l) | None => None end
   | VL [VN 2; cs] => match dec_chunks cs with Some l => Some (SAppendFail l) | None => None end
+  | VL [VN 3; VN a] => Some (SRotatedAway (negb (a =? 0)))
   | VL [VN _; VN a] => Some (SReopen (negb (a =? 0)))
   | _ => None
   end.
@@ -49,6 +52,11 @@ Fixpoint seq_run (enc : bool) (st : fstate) (ops : list sop) : list vl :=
   | SAppendFail cs :: r =>               (* the scripted encoder writes cs, then returns Err *)
     let rs := append_enc_fails cap st cs in
     VL [VB (res_ok rs); VS (disk (res_state rs))] :: seq_run enc (res_state rs) r
+  | SRotatedAway a :: r =>             (* nothing is at the path: fa_open creates the file *)
+    match fa_open a None [] with
+    | Some st' => VL [VB true; VS (disk st')] :: seq_run enc st' r
+    | None => [VBad]
+    end
   | SReopen a :: r =>
     let st1 := snd (bw_flush st) in     (* BufWriter::drop flushes, ignoring errors *)
     match fa_open a (Some (disk st1)) [] with
